@@ -485,7 +485,15 @@ func fmtValues(g *G, n int) []Dec {
 		if g.R.Intn(4) == 0 {
 			e = g.R.between(-3000, 3000)
 		}
-		out = append(out, finDec(g.R.bool(), c, e))
+		d := finDec(g.R.bool(), c, e)
+		d.Hp = g.R.Intn(8) == 0
+		out = append(out, d)
+	}
+	// the boundary values again with a coefficient that lives in heap-backed storage (a BigInt that was once
+	// wider than 128 bits and shrank in place)
+	for _, v := range out[len(vs):len(vs)+2*(12+5*10)] {
+		v.Hp = true
+		out = append(out, v)
 	}
 	return out
 }
